@@ -43,7 +43,7 @@ func TestVerifRpcGuards(t *testing.T) {
 		cancel bool
 	}
 	scs := []sc{
-		{"fast-ok", 0, "ok", false}, {"fast-err", 0, "err", false}, {"fast-panic", 0, "panic", false},
+		{"fast-ok", 0, "ok", false}, {"fast-err", 0, "err", false}, {"fast-panic", 0, "panic", false}, {"fast-panic-nil-value", 0, "panicnil", false},
 		{"50ms-ok", 50 * time.Millisecond, "ok", false}, {"50ms-panic", 50 * time.Millisecond, "panic", false},
 		{"150ms-ok", 150 * time.Millisecond, "ok", false}, {"150ms-err", 150 * time.Millisecond, "err", false}, {"150ms-panic", 150 * time.Millisecond, "panic", false},
 		{"150ms-ok/clientcancel", 150 * time.Millisecond, "ok", true}, {"50ms-ok/clientcancel", 50 * time.Millisecond, "ok", true},
@@ -69,6 +69,9 @@ func TestVerifRpcGuards(t *testing.T) {
 					return nil, errBiz
 				case "panic":
 					panic("rpc-panic")
+				case "panicnil":
+					var e error
+					panic(e)
 				}
 				return "resp", nil
 			})
@@ -110,7 +113,7 @@ func TestVerifRpcGuards(t *testing.T) {
 			}
 			r.Outcome("%s", got)
 			wg.Wait()
-			clean := map[string]string{"ok": "resp|OK", "err": "<nil>|biz", "panic": "<nil>|Internal"}[s.ret]
+			clean := map[string]string{"ok": "resp|OK", "err": "<nil>|biz", "panic": "<nil>|Internal", "panicnil": "<nil>|Internal"}[s.ret]
 			deadline := "<nil>|DeadlineExceeded"
 			if s.cancel {
 				deadline = "<nil>|Canceled"
